@@ -135,6 +135,17 @@ func (o *OracleC06) checkOne(c *Chain, b *BlockCtx, a AggInfo, round []oracletyp
 		if ties > 0 {
 			o.count("mode_equal_weight_ties")
 		}
+		// reach probe: would the weighted median of the same reports be another value? (then a mix-up of the two
+		// methods is visible on this round)
+		if med, ok := refMedian(round); ok && med != chosen && w[med] != nil && w[med].Cmp(w[chosen]) < 0 {
+			o.count("probe_mode_rounds_whose_median_differs")
+			for _, a2 := range c.ViewOf(b.Ref).Aggregates() {
+				if a2.Agg.Height == uint64(b.H) && len(a2.Agg.Reporters) > 0 && !eqBytes(a2.QueryID, a.QueryID) {
+					o.count("probe_…of_which_another_round_closed_in_the_same_block")
+					break
+				}
+			}
+		}
 	}
 	if a.Agg.ReporterPower != total.Uint64() || !total.IsUint64() {
 		bad("power-sum", "aggregate records total power %d, reports sum to %s", a.Agg.ReporterPower, total)
@@ -208,8 +219,24 @@ func (o *OracleC06) functionProbes(c *Chain, b *BlockCtx, a AggInfo, round []ora
 	if err != nil {
 		return nil
 	}
+	// WeightedMode loops once per unit of reporting power: the number of repetitions is scaled down (deterministically,
+	// by the round's total power) so that the probe's cost stays bounded when a reporter carries millions of units
+	repeats := 96
+	if method == "mode" {
+		var tot uint64
+		for _, r := range round {
+			tot += r.Power
+		}
+		if tot > 0 && 20_000_000/tot < uint64(repeats) {
+			repeats = int(20_000_000 / tot)
+			if repeats < 2 {
+				repeats = 2
+			}
+			o.count("repeat_probe_scaled_down_for_large_power")
+		}
+	}
 	// C01 (d): repeated calls on identical input agree (map-iteration order is re-drawn on every call)
-	for i := 0; i < 96; i++ {
+	for i := 0; i < repeats; i++ {
 		r, err := call(round)
 		if err != nil {
 			break
@@ -251,3 +278,33 @@ func (o *OracleC06) functionProbes(c *Chain, b *BlockCtx, a AggInfo, round []ora
 }
 
 func (o *OracleC06) End(c *Chain) []*Violation { return nil }
+
+// refMedian: the smallest reported value whose cumulative power (values in ascending numeric order) reaches half of
+// the total — a reference weighted median used only by a reach probe.
+func refMedian(round []oracletypes.MicroReport) (string, bool) {
+	type vp struct {
+		v *big.Int
+		s string
+		p *big.Int
+	}
+	var xs []vp
+	total := new(big.Int)
+	for _, r := range round {
+		n, ok := numVal(r.Value)
+		if !ok {
+			return "", false
+		}
+		p := new(big.Int).SetUint64(r.Power)
+		xs = append(xs, vp{n, r.Value, p})
+		total.Add(total, p)
+	}
+	sort.SliceStable(xs, func(i, j int) bool { return xs[i].v.Cmp(xs[j].v) < 0 })
+	cum := new(big.Int)
+	for _, x := range xs {
+		cum.Add(cum, x.p)
+		if new(big.Int).Lsh(cum, 1).Cmp(total) >= 0 {
+			return x.s, true
+		}
+	}
+	return "", false
+}
